@@ -164,13 +164,13 @@ def systematic(rnd, tier):
                                 [root, sub, {"op": "restart"}, flipped], [root, rootb, sub_ab, {"op": "restart"}],
                                 [rootb, sub_ba, root, {"op": "remove", "name": b"blog"}]]
     if tier == "quick":
-        out = rnd.sample(out, 40)
+        out = rnd.sample(out, 32)
     return [(h, [A, B]) for h in out]
 
 
 def gen_cases(seed, tier):
     rnd = random.Random(seed)
-    n = 50 if tier == "quick" else 700
+    n = 40 if tier == "quick" else 700
     hp = systematic(rnd, tier) + [gen_history(rnd, rnd.randint(4, 10)) for _ in range(n)]
     cases = []
     for hist, pool in hp:
